@@ -5,7 +5,7 @@
 From Coq Require Import ZArith QArith Qround Bool List.
 Require Import QV.C07.Model QV.C07.Spec QV.C07.Wf QV.C07.ProofsRange QV.C07.ProofsLoop QV.C07.ProofsAtoms
                QV.C07.ProofsDur QV.C07.ProofsInt QV.C07.ProofsEnds QV.C07.ProofsIni QV.C07.ProofsFin QV.C07.ProofsPad QV.C07.ProofsWit
-               QV.C07.Hist QV.C07.ProofsHist QV.C07.Def QV.C07.ProofsDef.
+               QV.C07.Hist QV.C07.ProofsHist QV.C07.Def QV.C07.ProofsDef QV.C07.Embed QV.C07.ProofsMul.
 Import ListNotations.
 Open Scope Q_scope.
 
@@ -145,6 +145,25 @@ Theorem C07_definedness_refuted :
   undefined_witness (ArithL (Const (EC 0) [(chA, EC 1)]) ODiv (SAll (EC 0))) QInitial.
 Proof. exact definedness_refuted. Qed.
 Print Assumptions C07_definedness_refuted.
+
+(* ---- ArithmeticPT with a time dependent MULTIPLICATIVE scalar over a ConstantPT / polynomial FunctionPT (round 3):
+   Embed.arith_tm replaces `pt * s(t)` by a FunctionPT per channel whose coefficient expressions are v * s_k resp. the
+   convolution of the coefficients; they evaluate to a polynomial P with P(t) = v * s(t), resp. f(t) * s(t), so the
+   embedded template denotes the product pulse and the theorems of part A apply to it (checked against the real
+   ArithmeticPT by check_corr / check_spec on every generated case of that shape) ---- *)
+Theorem C07_scalar_product_const : forall rho v X s S,
+  (exists x, eval rho v = Some x /\ x == X) -> Forall2 (fun e q => exists x, eval rho e = Some x /\ x == q) s S ->
+  exists P, Forall2 (fun e q => exists x, eval rho e = Some x /\ x == q) (map (EMul v) s) P /\ forall t, peval P t == X * peval S t.
+Proof. exact scalar_product_const. Qed.
+Print Assumptions C07_scalar_product_const.
+
+Theorem C07_scalar_product_func : forall rho f F s S,
+  Forall2 (fun e q => exists x, eval rho e = Some x /\ x == q) f F ->
+  Forall2 (fun e q => exists x, eval rho e = Some x /\ x == q) s S ->
+  exists P, Forall2 (fun e q => exists x, eval rho e = Some x /\ x == q) (pmul f s) P /\
+            forall t, peval P t == peval F t * peval S t.
+Proof. exact scalar_product_func. Qed.
+Print Assumptions C07_scalar_product_func.
 
 (* ================================================== Part B ================================================== *)
 (* the unguarded statements of round 1, literally as written then (total evaluation, no well-formedness): *)
